@@ -67,7 +67,7 @@ def run(ctx):
             if t.ok:
                 validated += info["episodes"]
             elif t.violated == "ObservationsConform":
-                m = re.findall(r'mismatch = <<(\d+), "([\w-]+)", "(\w+)", "(\w*)", (<<.*?>>), (<<.*?>>)>>', t.out, re.S)
+                m = re.findall(r'mismatch = <<\s*(\d+),\s*"([\w-]+)",\s*"(\w+)",\s*"(\w*)",\s*(<<.*?>>),\s*(<<.*?>>)\s*>>', t.out, re.S)
                 line, backend, op, tx, got, exp = m[-1] if m else ("0", "?", "?", "?", "?", "?")
                 rows = vlib.read_ndjson(tr)
                 ln = int(line)
